@@ -10,14 +10,20 @@ class EliotHandler(Handler):
     """A C{logging.Handler} that routes log messages to Eliot."""
 
     def emit(self, record):
-        log_message(
-            message_type="eliot:stdlib",
-            log_level=record.levelname,
-            logger=record.name,
-            message=record.getMessage(),
-        )
-        if record.exc_info:
-            write_traceback(exc_info=record.exc_info)
+        try:
+            log_message(
+                message_type="eliot:stdlib",
+                log_level=record.levelname,
+                logger=record.name,
+                message=record.getMessage(),
+            )
+            if record.exc_info:
+                write_traceback(exc_info=record.exc_info)
+        except Exception:
+            # As the standard library's own handlers do: a record that cannot
+            # be formatted (e.g. arguments not matching the format string)
+            # must not raise into the code that made the logging call.
+            self.handleError(record)
 
 
 __all__ = ["EliotHandler"]
